@@ -169,6 +169,31 @@ func c09Mode(o *cli.Opts, run *evid.Run, bin, mode string) {
 			run.Add("probes_answered", 1)
 		}
 	}
+	pendingUpload(o, run, ks, srv, key+"/upload-pending")
+	// two requests that take long from the server's point of view (the body arrives in two segments 33 s - thorough
+	// 130 s - apart, as over a slow link or with a large production document), in flight during the whole history:
+	// a valid batch must still get its proof, an unsatisfiable one its proving_error
+	var slow sync.WaitGroup
+	for si, mk := range []func(*rand.Rand, *keyset) *request{validRequest, invalidBatchRequest} {
+		sk := fmt.Sprintf("%s/slow-upload/%d", key, si)
+		if !run.Wants(sk) {
+			continue
+		}
+		rq := mk(gen.RNG(o.Seed, sk), ks)
+		rq.raw, rq.pause = "slow-body", o.Pick(33000, 130000)
+		rq.class += "/slow-upload"
+		slow.Add(1)
+		go func() {
+			defer slow.Done()
+			rs := send(srv.ProverAddr, rq, 15*time.Minute)
+			if p := judgeResponse(ks, rq, rs); p != "" {
+				run.Violate(sk, fmt.Sprintf("%s request (%s, body delivered over %d s): %s", mode, rq.class, rq.pause/1000, p), map[string]any{"request_body": truncate(string(rq.body), 2000), "response_status": rs.status, "response_body": truncate(string(rs.body), 400)})
+			}
+			run.Add("slow_uploads", 1)
+			run.Case(mode+"/slow-upload", true, string(rq.body), rs.status == 200, map[string]any{"class": rq.class, "pause_ms": rq.pause, "status": rs.status})
+		}()
+	}
+	defer slow.Wait()
 	// the PRNG history, 6 clients at a time
 	cli.ForEach(n, 6, func(i int) {
 		rk := fmt.Sprintf("%s/%d", key, i)
